@@ -93,6 +93,12 @@ def random_wf(rng, maxn=4, heavy=False):
 def join_wf(rng):
     """join-heavy DAG: several parents feeding a join over edges of different
     (also non-divisible) volumes, plus a tail"""
+    if rng.random() < 0.15:
+        # wide fan: many tasks become ready in one round (ids with 1 and 2 digits)
+        n = rng.randint(12, 13)
+        nodes = [{"k": k, "comp": rng.choice([1, 2, 3]), "data": 0} for k in range(1, n + 1)]
+        edges = [{"u": 1, "v": v, "vol": rng.choice([0, 1, 2])} for v in range(2, n + 1)]
+        return {"nodes": nodes, "edges": edges, "wide": True}
     if rng.random() < 0.3:
         # steered shape: two branches that tend to run back-to-back on one machine
         # while an independent long task keeps another machine busy, then a join
@@ -169,6 +175,8 @@ def random_cfg(rng, alg=None, family="roomy", nobs=None, maxn=4):
         for o in c["obs"]:
             o["wf"] = join_wf(rng)
             o["ing"] = min(o["ing"], c["maxIngest"])
+            if o["wf"].pop("wide", False):
+                c.setdefault("_wide", []).append(o["o"])
             if o["wf"].pop("steered", False):
                 c["machines"] = [{"id": "m0", "cpu": 1, "bw": c["machines"][0]["bw"]},
                                  {"id": "m1", "cpu": 1, "bw": c["machines"][0]["bw"]}]
@@ -183,6 +191,11 @@ def random_cfg(rng, alg=None, family="roomy", nobs=None, maxn=4):
             c["split"] = []
         if c["alg"] in ("plan", "greedy"):
             c["plan"] = static_plan(c, rng)
+            for a in c["plan"]:
+                if a["o"] in c.get("_wide", []) and a["k"] > 1:
+                    # all children of the fan planned to start together
+                    a["eft"], a["est"] = a["eft"] - a["est"] + 1, 1
+        c.pop("_wide", None)
         return normalise(c)
     nm = rng.randint(1, 4)
     machines = [{"id": f"m{i}", "cpu": rng.choice([1, 1, 2, 3]), "bw": rng.choice([1, 1, 1, 2])}
